@@ -71,6 +71,13 @@ def run_one(sc, binpath, env, timeout):
                 "text": "data written by a task call was read without a happens-before edge: " + msg.split(" @")[0]}
     if "use-after-return" in msg:
         return {"ok": False, "prop": "C06", "class": "use-after-return", "iteration": iteration, "wall": wall, "text": msg.split(" @")[0]}
+    if "Messages leaked" in msg:
+        # loom's end-of-execution check: a channel still holds a message nobody received. The only channels of the pool
+        # are the per-worker task channels, and the last message of each is the facade's disconnect notice (pool drop):
+        # it stays unreceived exactly when the worker left its receive loop earlier - a worker that was retired instead
+        # of being kept for later broadcasts.
+        return {"ok": False, "prop": "C06", "class": "worker-retired", "iteration": iteration, "wall": wall,
+                "text": "a pool worker left its receive loop while the pool was still alive (its channel's last message was never received): workers must be kept and reused by later broadcasts: " + " ".join(msg.split())[:200]}
     if "process::abort called" in msg:
         return {"ok": False, "prop": None, "class": "abort", "iteration": iteration, "wall": wall,
                 "text": "a pool worker reached its abort guard: " + msg.split(" @")[0]}
